@@ -69,7 +69,7 @@ def check(ctx):
     r3(ctx)
     r5(ctx)
     r6(ctx)
-    r7(ctx)
+    r7_tensor(ctx)
     r8(ctx)
     ctx.rule("C16-R9", "inertia tensor I = sum_a m_a (|r_a|^2 1 - r_a r_a^T) about the centre of mass (both implementations); Q = 1/(2N) sum_j (3 e_j e_j^T - 1) over normalised directors; "
                        "nematic order = largest eigenvalue of Q")
@@ -344,50 +344,6 @@ def r6(ctx):
 
 
 # ---------------------------------------------------------------------------------------------------
-def r7(ctx):
-    ctx.analysed_files.add(RDF)
-    for q, vol in (("compute_rdf", "traj.unitcell_volumes"), ("compute_rdf_t", None)):
-        fn = ctx.py.func(RDF, q)
-        ctx.analysed_functions.add(RDF + ":" + q)
-        a = {}
-        for st in walk_no_nested(fn):
-            if isinstance(st, ast.Assign) and isinstance(st.targets[0], ast.Name) and st.targets[0].id in ("r", "V", "norm", "g_r", "g_r_t"):
-                a.setdefault(st.targets[0].id, []).append(st)
-        e0, e1 = sym("e0"), sym("e1")
-
-        def ev(node, env):
-            txt = src(node).replace("edges[1:]", "e1").replace("edges[:-1]", "e0")
-            tree = ast.parse(txt, mode="eval").body
-            ps = PySym(env)
-            return ps, ps.ex(tree)
-        try:
-            ps, rv = ev(a["r"][0].value, {"e0": e0, "e1": e1})
-            ctx.decide(ps.equal(rv, (e0 + e1) / 2), "C16-R7", a["r"][0], RDF, q, "r = (e0 + e1)/2", "", "bin centres are %r" % rv)
-            ps, vv = ev(a["V"][0].value, {"e0": e0, "e1": e1})
-            want = Rat(Poly.const(4)) / 3 * sym("pi") * (e1 * e1 * e1 - e0 * e0 * e0)
-            ctx.decide(ps.equal(vv, want), "C16-R7", a["V"][0], RDF, q, "V_shell = 4/3 pi (e1^3 - e0^3)", "", "shell volume is %r" % vv)
-        except (PUnsupported, KeyError, SyntaxError) as e:
-            ctx.undecided("C16-R7", fn, RDF, q, "bin centres / shell volume", "not evaluable: %s" % e)
-            continue
-        nt = _n(src(a["norm"][0].value)) if "norm" in a else ""
-        if q == "compute_rdf":
-            ok = nt == "len(pairs)*np.sum(1.0/traj.unitcell_volumes)*V"
-            ctx.decide(ok, "C16-R7", a["norm"][0] if "norm" in a else fn, RDF, q, "norm = n_pairs * sum_frames(1/V_cell) * V_shell", "", "normalisation is %s" % nt)
-            gt = _n(src(a["g_r"][-1].value)) if "g_r" in a else ""
-            ctx.decide(gt == "g_r.astype(np.float64)/norm", "C16-R7", a["g_r"][-1] if "g_r" in a else fn, RDF, q, "g(r) = histogram / norm", "", "g(r) is %s" % gt)
-            h = [st for st in a.get("g_r", [])]
-            hist = [n for n in walk_no_nested(fn) if isinstance(n, ast.Call) and call_name(n) == "np.histogram"]
-            ok = bool(hist) and _n(src(hist[0])) == "np.histogram(distances,range=r_range,bins=n_bins)"
-            ctx.decide(ok, "C16-R7", hist[0] if hist else fn, RDF, q, "histogram of all pair distances over r_range with n_bins bins", "", "histogram call is %s" % (src(hist[0]) if hist else None))
-        else:
-            ok = "len(pairs" in nt and nt.endswith("*V") and "np.sum(1.0/traj.unitcell_volumes)" in nt
-            ctx.decide(ok, "C16-R7", a["norm"][0] if "norm" in a else fn, RDF, q, "norm contains n_pairs, the cell volumes and V_shell", "", "normalisation is %s" % nt)
-    fn = ctx.py.func(RDF, "compute_rdf")
-    nb = [n for n in walk_no_nested(fn) if isinstance(n, ast.Assign) and dotted(n.targets[0]) == "n_bins" and "bin_width" in src(n.value)]
-    ctx.decide(bool(nb) and _n(src(nb[0].value)) == "int((r_range[1]-r_range[0])/bin_width)", "C16-R7", nb[0] if nb else fn, RDF, "compute_rdf", "n_bins = (r_max - r_min)/bin_width", "", "bin count is %s" % (src(nb[0].value) if nb else None))
-
-
-# ---------------------------------------------------------------------------------------------------
 def r8(ctx):
     ctx.analysed_files.add(NMR)
     fn = ctx.py.func(NMR, "_J3_function")
@@ -626,3 +582,139 @@ def r_tensor(ctx):
     want = _spec((N_F, 3), lambda f, c: sum((q.at([a]) * (leg(f, first[a], a, c) + leg(f, 0, first[a], c)) for a in range(N_A)), Rat(Poly.const(0))))
     _decide_tensor(ctx, "C16-R6", THERMO, "dipole_moments", "mu[f] = sum_a q_a ((r_a - r_first(a))_mic + (r_first(a) - r_0)_mic)", {"traj": traj, "charges": q}, want, funcs=funcs,
                    models={"md.compute_displacements": disp_model, "compute_displacements": disp_model})
+
+
+# ---------------------------------------------------------------------------------------------------
+def r7_tensor(ctx):
+    """compute_rdf / compute_rdf_t by tensor value numbering: np.histogram and the distance functions are summarised as opaque maps whose
+    inputs are checked; decided is everything around them - which distances are histogrammed, bin centres, shell volume, the normalisation by
+    the number of pairs and the cell volumes, and for compute_rdf_t the partition of the pair list into chunks and the weights of the chunks."""
+    import itertools
+    traj, _m = _model(ctx)
+    n_bins = 3
+    pi = Rat(Poly.var("pi"))
+    edges = Ten.sym("edge", (n_bins + 1,))
+    V = traj.unitcell_volumes
+    sumV = sum((Rat(Poly.const(1)) / V.at([f]) for f in range(N_F)), Rat(Poly.const(0)))
+    shell = [Rat(Poly.const(4)) / 3 * pi * (edges.at([b + 1]) * edges.at([b + 1]) * edges.at([b + 1]) - edges.at([b]) * edges.at([b]) * edges.at([b])) for b in range(n_bins)]
+    centres = Ten((n_bins,), [(edges.at([b]) + edges.at([b + 1])) / 2 for b in range(n_bins)])
+    r_range = Ten((2,), [Rat(Poly.const(0)), Rat(Poly.const(1))])
+
+    def make_models(log):
+        def hist(ev, call):
+            d = ev.ex(call.args[0])
+            rng = ev.kw(call, "range", 2)
+            bins = ev.kw(call, "bins", 1)
+            k = len(log["hist"])
+            nb = ev.concrete(bins)
+            h = Ten.sym("H%d" % k, (nb,))
+            log["hist"].append((d, rng, nb, h))
+            return (h, Ten.sym("edge", (nb + 1,)))
+
+        def dist(ev, call):
+            prs = ev.to_ten(ev.ex(call.args[1]))
+            per = ev.kw(call, "periodic", 2, "<default>")
+            k = len(log["dist"])
+            d = Ten.sym("d%d" % k, (N_F, prs.shape[0]))
+            log["dist"].append((prs, per, d, None))
+            return d
+
+        def dist_t(ev, call):
+            prs = ev.to_ten(ev.ex(call.args[1]))
+            tms = ev.to_ten(ev.ex(call.args[2]))
+            per = ev.kw(call, "periodic", 3, "<default>")
+            k = len(log["dist"])
+            d = Ten.sym("d%d" % k, (tms.shape[0], prs.shape[0]))
+            log["dist"].append((prs, per, d, tms))
+            return d
+        return {"np.histogram": hist, "compute_distances": dist, "compute_distances_t": dist_t, "md.compute_distances": dist}
+
+    def rows(t):
+        return [tuple(int(t.at([i, j]).const_value()) for j in range(t.shape[1])) for i in range(t.shape[0])]
+    # ------------------------------------------------------------------ compute_rdf
+    fn = ctx.py.func(RDF, "compute_rdf")
+    ctx.analysed_functions.add(RDF + ":compute_rdf")
+    pairs = Ten((5, 2), [Rat(Poly.const(v)) for v in (0, 1, 1, 2, 2, 3, 0, 3, 0, 2)])
+    log = {"hist": [], "dist": []}
+    ts = TenSym({}, models=make_models(log))
+    try:
+        got = ts.run_fn(fn, traj=traj, pairs=pairs, r_range=r_range, n_bins=n_bins, periodic="<periodic>")
+        ok = len(log["dist"]) == 1 and rows(log["dist"][0][0]) == rows(pairs) and log["dist"][0][1] == "<periodic>"
+        ctx.decide(ok, "C16-R7", fn, RDF, "compute_rdf", "distances of exactly the given pairs, with the caller's `periodic`", "", "compute_distances is called %d times; pairs %s, periodic %r" % (len(log["dist"]), [rows(x[0]) for x in log["dist"]][:1], [x[1] for x in log["dist"]]))
+        ok = len(log["hist"]) == 1 and log["hist"][0][0] is log["dist"][0][2] and ts.first_difference(log["hist"][0][1], r_range) is None and log["hist"][0][2] == n_bins
+        ctx.decide(ok, "C16-R7", fn, RDF, "compute_rdf", "one histogram of all distances (all frames, all pairs) over r_range with n_bins bins", "", "np.histogram is not applied once to the whole distance array with range=r_range, bins=n_bins")
+        if isinstance(got, tuple) and len(got) == 2 and log["hist"]:
+            H = log["hist"][0][3]
+            want = Ten((n_bins,), [H.at([b]) / (Rat(Poly.const(5)) * sumV * shell[b]) for b in range(n_bins)])
+            d0 = ts.first_difference(got[0], centres)
+            d1 = ts.first_difference(got[1], want)
+            ctx.decide(d0 is None, "C16-R7", fn, RDF, "compute_rdf", "r = bin centres (e[b] + e[b+1])/2", "", "bin centres differ: %s" % d0)
+            ctx.decide(d1 is None, "C16-R7", fn, RDF, "compute_rdf", "g[b] = H[b] / (n_pairs * sum_f 1/V[f] * 4/3 pi (e[b+1]^3 - e[b]^3))", "", "g(r) differs from the definition: %s" % (d1 or "")[:300])
+        else:
+            ctx.violated("C16-R7", fn, RDF, "compute_rdf", "returns (r, g_r)", "returned %r" % (got,))
+    except ShapeError as e:
+        ctx.violated("C16-R7", fn, RDF, "compute_rdf", "array shapes", "array operations do not fit: %s" % e)
+    except (TUnsupported, PUnsupported) as e:
+        ctx.undecided("C16-R7", fn, RDF, "compute_rdf", "formula", "not evaluable: %s" % e)
+    for q_ in ("compute_rdf", "compute_rdf_t"):
+        fnb = ctx.py.func(RDF, q_)
+        log = {"hist": [], "dist": []}
+        ts = TenSym({}, models=make_models(log))
+        try:
+            kw_ = dict(traj=traj, pairs=Ten(pairs.shape, pairs.data), r_range=Ten((2,), [Rat(Poly.const(1)) / 2, Rat(Poly.const(3)) / 2]), bin_width=Rat(Poly.const(1)) / 4)
+            if q_ == "compute_rdf_t":
+                kw_["times"] = Ten((2, 2), [Rat(Poly.const(v)) for v in (0, 0, 0, 1)])
+            ts.run_fn(fnb, **kw_)
+            nb = sorted({h[2] for h in log["hist"]})
+            ctx.decide(nb == [4], "C16-R7", fnb, RDF, q_, "without n_bins: int((r_max - r_min) / bin_width) bins", "", "for r_range (0.5, 1.5) and bin_width 0.25 the histogram gets %s bins" % nb)
+        except ShapeError as e:
+            ctx.violated("C16-R7", fnb, RDF, q_, "bin count", "array operations do not fit: %s" % e)
+        except (TUnsupported, PUnsupported) as e:
+            ctx.undecided("C16-R7", fnb, RDF, q_, "bin count", "not evaluable: %s" % e)
+    # ------------------------------------------------------------------ compute_rdf_t
+    fn = ctx.py.func(RDF, "compute_rdf_t")
+    ctx.analysed_functions.add(RDF + ":compute_rdf_t")
+    pairs4 = Ten((4, 2), [Rat(Poly.const(v)) for v in (0, 1, 1, 2, 2, 3, 0, 3)])
+    times = Ten((2, 2), [Rat(Poly.const(v)) for v in (0, 0, 0, 1)])
+    n_t = 2
+    for self_corr, chunk in ((True, 4), (True, 3), (False, 3), (False, 2), (True, 100)):
+        aug = ([(u, u) for u in (0, 1, 2, 3)] if self_corr else []) + rows(pairs4)
+        n_tot = len(aug)
+        what = "self_correlation=%s, %d pairs in chunks of %d" % (self_corr, n_tot, chunk)
+        log = {"hist": [], "dist": []}
+        ts = TenSym({}, models=make_models(log))
+        try:
+            got = ts.run_fn(fn, traj=traj, pairs=Ten(pairs4.shape, pairs4.data), times=times, r_range=r_range, n_bins=n_bins, self_correlation=self_corr, n_concurrent_pairs=chunk, periodic="<periodic>")
+            seen = [p_ for d in log["dist"] for p_ in rows(d[0])]
+            ok = seen == aug and all(d[1] == "<periodic>" for d in log["dist"]) and all(d[3] is not None and rows(d[3]) == rows(times) for d in log["dist"])
+            ctx.decide(ok, "C16-R7", fn, RDF, "compute_rdf_t", "%s: every pair (self pairs first when requested) is in exactly one chunk, same times, caller's `periodic`" % what, "",
+                       "the chunks cover the pairs %s, expected %s" % (seen, aug))
+            # histogram k belongs to chunk c, time t
+            owner = {}
+            okh = True
+            for (d, rng, bins, h) in log["hist"]:
+                src_ = None
+                for ci, dd in enumerate(log["dist"]):
+                    for t in range(n_t):
+                        row = ts.getitem(dd[2], t)
+                        if isinstance(d, Ten) and d.shape == row.shape and all(x is y or x == y for x, y in zip(d.data, row.data)):
+                            src_ = (ci, t)
+                if src_ is None or src_ in owner or ts.first_difference(rng, r_range) is not None or bins != n_bins:
+                    okh = False
+                else:
+                    owner[src_] = h
+            okh = okh and len(owner) == len(log["dist"]) * n_t
+            ctx.decide(okh, "C16-R7", fn, RDF, "compute_rdf_t", "%s: one histogram per chunk and time pair, over r_range with n_bins bins" % what, "", "histograms are not taken once per (chunk, time) row of the chunk's distances")
+            if okh and isinstance(got, tuple) and len(got) == 2:
+                K = [Rat(Poly.const(n_tot)) / N_F * sumV * shell[b] for b in range(n_bins)]
+                want = Ten((n_t, n_bins), [sum((owner[(ci, t)].at([b]) for ci in range(len(log["dist"]))), Rat(Poly.const(0))) / K[b] for t in range(n_t) for b in range(n_bins)])
+                d0 = ts.first_difference(got[0], centres)
+                d1 = ts.first_difference(got[1], want)
+                ctx.decide(d0 is None and d1 is None, "C16-R7", fn, RDF, "compute_rdf_t", "%s: g[t, b] = sum over chunks of H / (n_pairs/period * sum_f 1/V[f] * V_shell[b])" % what, "",
+                           "the chunk-weighted average is not the histogram of all pairs over the normalisation of all pairs: %s" % ((d1 or d0) or "")[:300])
+        except ShapeError as e:
+            ctx.violated("C16-R7", fn, RDF, "compute_rdf_t", what, "array operations do not fit: %s" % e)
+        except ZeroDivisionError:
+            ctx.violated("C16-R7", fn, RDF, "compute_rdf_t", what, "the weights of the chunks sum to zero")
+        except (TUnsupported, PUnsupported) as e:
+            ctx.undecided("C16-R7", fn, RDF, "compute_rdf_t", what, "not evaluable: %s" % e)
